@@ -157,6 +157,14 @@ def generate(rng, tier):
                   "p": period, "bodies": bodies}
             if period >= 0 and rng.random() < 0.12:
                 op["defer"] = rng.choice([0.25, 0.5, 1, 3])
+            if bodies and rng.random() < 0.15:
+                # the loop over the ticker is left and entered again (same object): for the grid
+                # that is one long body run; single steps may be taken by a child task
+                if rng.random() < 0.6:
+                    op["split"] = rng.randint(1, len(bodies))
+                if "split" not in op or rng.random() < 0.5:
+                    op["helper"] = sorted(rng.sample(range(len(bodies) + 1),
+                                                     rng.randint(1, min(3, len(bodies) + 1))))
             if rng.random() < 0.25:
                 serial += 1
                 op = {"op": "scope", "label": "G%d" % serial, "children": [],
